@@ -95,8 +95,10 @@ def run(ctx, prefix="C12:"):
     res = ctx.tlc("Pagination", None, workers=16, cfg_text=CFG % (2, hs, "FALSE", "FALSE", EXH[0], EXH[1]), timeout=3000, heap_gb=12)
     add("exhaustive-2-paragraphs", replay(ctx, res, "exh", prefix=prefix, validate_all=thorough))
     if thorough:
-        res = ctx.tlc("Pagination", None, workers=16, cfg_text=CFG % (2, "2, 3", "TRUE", "FALSE", EXH[0], EXH[1]), timeout=6000, heap_gb=12)
-        add("exhaustive-2-paragraphs-left-right-first", replay(ctx, res, "exhrich", prefix=prefix))
+        # (every single paragraph with every forced break / named page / direction; two rich paragraphs are 6 million documents:
+        # they are sampled by the simulations below)
+        res = ctx.tlc("Pagination", None, workers=16, cfg_text=CFG % (1, "1, 2, 3", "TRUE", "FALSE", EXH[0], EXH[1]), timeout=6000, heap_gb=12)
+        add("exhaustive-1-paragraph-rich", replay(ctx, res, "exhrich", prefix=prefix))
     for nb, num in ((3, 400), (4, 400)) if not thorough else ((3, 6000), (4, 6000), (5, 4000), (6, 2000)):
         res = ctx.tlc("Pagination", None, workers=8, cfg_text=CFG % (nb, "1, 2, 3, 4", "TRUE", "TRUE", SIM[0], SIM[1]), simulate="num=%d" % num, depth=60, timeout=3000)
         add("simulated-%d-paragraphs" % nb, replay(ctx, res, "sim%d" % nb, prefix=prefix))
